@@ -145,7 +145,7 @@ class SyncRunnerTemplate(BaseRunner, ABC):
         _validate_on_missing(on_missing)
         _validate_error_handling(error_handling)
 
-        max_iter = max_iterations or self.default_max_iterations
+        max_iter = self.default_max_iterations if max_iterations is None else max_iterations
         dispatcher = self._create_dispatcher(event_processors)
         run_id, run_span_id = self._emit_run_start_sync(dispatcher, graph, _parent_span_id)
         start_time = time.time()
